@@ -135,7 +135,25 @@ def check_preemph(case):
         # memory next to a strided view must never be touched
         if case["layout"] == "stride2":
             require(bool(np.all(owner[1::2] == 77)), "in_place call wrote outside the strided view it was given")
+    if case.get("reuse") and n <= 4096:
+        # the same pre-processor object is applied again (streaming chunks of equal size, feeding a result
+        # back in): earlier results and the new input must stay what they were
+        out_before = out.copy()
+        again = call("Preemphasize.apply (second call on the same object)", pre.apply, out, in_place=False)
+        require(np.array_equal(out, out_before, equal_nan=True),
+                "applying the same object to its own earlier result with in_place=False modified that result")
+        vals2 = _base_signal(n, dt, case["seed"] + 1, case["magfrac"], case["kind"])
+        third = call("Preemphasize.apply (third call on the same object)", pre.apply, vals2, in_place=False)
+        require(np.array_equal(out, out_before, equal_nan=True), "an earlier result changed when the same object was applied to another signal")
+        xs2 = [float(v) for v in vals2.tolist()]
+        want2 = _cast_back([xs2[i] if i == 0 else xs2[i] - coeff * xs2[i - 1] for i in range(n)], dt)
+        require(np.array_equal(third, want2), "second signal through the same object: wrong values")
+        if vals.dtype.kind == "f":  # (integer results fed back may leave the dtype's range)
+            fb = _cast_back([float(v) if i == 0 else float(v) - coeff * float(out_before[i - 1]) for i, v in enumerate(out_before.tolist())], dt)
+            require(np.array_equal(again, fb, equal_nan=True), "result fed back through the same object: wrong values")
     labels = [dt, _lenclass(n), "in_place" if in_place else "copy", case["layout"]]
+    if case.get("reuse"):
+        labels.append("object-reused")
     if in_place and n and np.shares_memory(out, owner):
         labels.append("aliases-input")
     if dt == "i8" and n and max(abs(int(v)) for v in vals.tolist()) > 2 ** 53:
@@ -165,6 +183,7 @@ def preemph_cases():
             "coeff": _coeffs(),
             "in_place": st.booleans(),
             "layout": st.sampled_from(LAYOUTS),
+            "reuse": st.sampled_from([False, False, True]),
         }
     )
 
